@@ -83,12 +83,46 @@ def sg_concat(mb, sfx, shared=None):
   return g
 
 
+def sg_chain3(mb, sfx, shared=None):
+  g = mb.subgraph('chain3' + sfx)
+  x = g.input('x' + sfx, (1, 2))
+  t = g.unary('TANH', x, 't1' + sfx)
+  t = g.unary('TANH', t, 't2' + sfx)
+  g.output(g.unary('TANH', t, 'y' + sfx))
+  return g
+
+
+def sg_fc_fc(mb, sfx, shared=None):
+  g = mb.subgraph('fc_fc' + sfx)
+  x = g.input('x' + sfx, (1, 2))
+  a = g.fc(x, 'fc1' + sfx, bias=False)
+  g.output(g.fc(a, 'y' + sfx, bias=True))
+  return g
+
+
+def sg_late_input(mb, sfx, shared=None):
+  """second graph input is first consumed by the last operator"""
+  g = mb.subgraph('late_input' + sfx)
+  x = g.input('x' + sfx, (1, 2))
+  z = g.input('z' + sfx, (1, 2))
+  a = g.unary('GELU', x, 'g' + sfx)
+  b = g.unary('LOGISTIC', a, 'l' + sfx)
+  g.output(g.binary('ADD', b, z, 'y' + sfx))
+  return g
+
+
 PAIRS = {
     'independent': ([(sg_fc_tanh, '_a'), (sg_gelu_fc, '_b')], False),
     'shared_buffer': ([(sg_fc_tanh, '_a'), (sg_gelu_fc, '_b')], True),
     'equal_structure': ([(sg_fc_tanh, '_a'), (sg_fc_tanh, '_b')], False),
     'insertions_in_both': ([(sg_mid_out, '_a'), (sg_concat, '_b')], False),
     'swapped': ([(sg_concat, '_a'), (sg_mid_out, '_b')], False),
+    # a tensor index produced late in one subgraph is a constant / an input
+    # consumed early in the next one (tables keyed by tensor index only)
+    'deep_then_constants': ([(sg_chain3, '_a'), (sg_fc_fc, '_b')], False),
+    'constants_then_deep': ([(sg_fc_fc, '_a'), (sg_chain3, '_b')], False),
+    'deep_then_late_input': ([(sg_chain3, '_a'), (sg_late_input, '_b')],
+                             False),
 }
 PAIRS_THOROUGH = {
     'three': ([(sg_mid_out, '_a'), (sg_gelu_fc, '_b'), (sg_concat, '_c')],
